@@ -9,6 +9,7 @@ import (
 	"log/slog"
 	"sort"
 	"sync"
+	"time"
 
 	"github.com/indexsupply/shovel/shovel"
 	"github.com/indexsupply/shovel/shovel/config"
@@ -74,8 +75,37 @@ type World struct {
 	Init  DbView
 	// ConfigAnomalies: static oracle right after ValidateFix (Dependencies vs declared references)
 	ConfigAnomalies []string
-	ctx             context.Context
+	// StepAnomalies: what a RETURNED Converge left behind (oracle "a step that returns has
+	// closed its transaction and given its connection back"), and steps that never returned
+	StepAnomalies []string
+	stepNo        int // steps started so far (for messages)
+	leakedTx      int // open server-side transactions already reported (current pool)
+	leakedConns   int // pool connections never released, already reported (current pool)
+	ctx           context.Context
 }
+
+// PoolMaxConns: size of the pgx pool of a world.  pgxpool's default is max(4, NumCPU): a
+// fixed number keeps "how many leaked connections exhaust the pool" machine independent.
+// (The largest worlds run six tasks, each holding one connection inside a step.)
+const PoolMaxConns = 8
+
+// StepTimeout bounds one Converge call (and one scheduling decision of the statement-level
+// scheduler).  Healthy steps take milliseconds; a step that exceeds it is blocked for good
+// (every pool connection leaked: Begin waits for ever) and is reported as "did not return".
+var StepTimeout = 10 * time.Second
+
+// stepTimeout: with every pool connection already known to be leaked a step cannot even
+// begin; one second is then enough to observe that it does not return.
+func (w *World) stepTimeout() time.Duration {
+	if w.leakedConns >= PoolMaxConns {
+		return time.Second
+	}
+	return StepTimeout
+}
+
+// leakGrace: pgxpool destroys a broken connection in a goroutine of its own, so "no
+// connection is acquired any more" may lag the return of Converge by a scheduler tick.
+const leakGrace = 300 * time.Millisecond
 
 // NewWorld builds the configuration, starts the fake database, applies the
 // schema and the integration tables exactly as cmd/shovel does, and loads
@@ -120,6 +150,7 @@ func NewWorld(spec WorldSpec) (*World, error) {
 		return nil, err
 	}
 	w.Rec.pg = w.PG
+	w.PG.SetDetectWaits(true)
 	w.Rec.Mute(true)
 	w.PG.SetObserver(w.Rec.Observe)
 	for _, s := range spec.Srcs {
@@ -146,9 +177,10 @@ func NewWorld(spec WorldSpec) (*World, error) {
 // start-up sequence of cmd/shovel (advisory lock, schema, table migration).
 func (w *World) connect(migrate bool) error {
 	var err error
-	if w.Pool, err = pgxpool.New(w.ctx, w.PG.URL()); err != nil {
+	if w.Pool, err = pgxpool.New(w.ctx, fmt.Sprintf("%s&pool_max_conns=%d", w.PG.URL(), PoolMaxConns)); err != nil {
 		return err
 	}
+	w.leakedTx, w.leakedConns = 0, 0
 	if migrate {
 		tx, err := w.Pool.Begin(w.ctx)
 		if err != nil {
@@ -410,11 +442,68 @@ func (w *World) MaxBatch(t *TaskH) int {
 	return m
 }
 
-func (w *World) Close() {
-	if w.Pool != nil {
-		w.Pool.Close()
-		w.Pool = nil
+// closePool closes the current pool.  pgxpool.Close waits until every acquired connection
+// has been released; a connection leaked by a step (its transaction was never ended) is never
+// released, so the pool is then closed in the background and abandoned.
+func (w *World) closePool() {
+	p := w.Pool
+	w.Pool = nil
+	if p == nil {
+		return
 	}
+	if w.leakedConns > 0 || !w.poolIdle(p, 0) {
+		go p.Close()
+		return
+	}
+	p.Close()
+}
+
+// poolIdle waits (at most leakGrace) until no more than allowed connections are acquired.
+func (w *World) poolIdle(p *pgxpool.Pool, allowed int) bool {
+	t0 := time.Now()
+	grace := leakGrace
+	if len(w.StepAnomalies) > 0 {
+		grace = 20 * time.Millisecond // the case fails anyway: do not spend the grace period again and again
+	}
+	for int(p.Stat().AcquiredConns()) > allowed {
+		if time.Since(t0) > grace {
+			return false
+		}
+		time.Sleep(200 * time.Microsecond)
+	}
+	return true
+}
+
+// checkReturned is the oracle applied when a Converge call of task tid has RETURNED
+// (whatever it returned): no session of the fake database has a transaction open and every
+// connection is back in the pool - except for the inFlight other steps that the
+// statement-level scheduler holds at a statement.
+func (w *World) checkReturned(tid int, outcome string, inFlight int) {
+	if w.Pool == nil {
+		return
+	}
+	if n := len(w.PG.OpenTransactions()) - inFlight; n > w.leakedTx {
+		w.StepAnomalies = append(w.StepAnomalies, fmt.Sprintf("step %d (task %d) returned %s and left %d transaction(s) open on the server: begun, neither committed nor rolled back (their uncommitted rows keep their unique-index entries; a retry has to wait for them)",
+			w.stepNo, tid, outcome, n-w.leakedTx))
+		w.leakedTx = n
+	}
+	if !w.poolIdle(w.Pool, inFlight+w.leakedConns) {
+		n := int(w.Pool.Stat().AcquiredConns()) - inFlight
+		w.StepAnomalies = append(w.StepAnomalies, fmt.Sprintf("step %d (task %d) returned %s without giving its connection back to the pool: %d of %d connections are held by nobody", w.stepNo, tid, outcome, n, PoolMaxConns))
+		w.leakedConns = n
+	}
+}
+
+// hung records a Converge call that did not return within StepTimeout.
+func (w *World) hung(tid int) {
+	st := w.Pool.Stat()
+	w.StepAnomalies = append(w.StepAnomalies, fmt.Sprintf("step %d (task %d) did not return: %d of %d pool connections acquired (%d leaked by earlier steps), %d transaction(s) open on the server: pool exhausted / transaction left open",
+		w.stepNo, tid, st.AcquiredConns(), PoolMaxConns, w.leakedConns, len(w.PG.OpenTransactions())))
+	w.Rec.Kill(tid)
+}
+
+func (w *World) Close() {
+	w.closePool()
 	if w.PG != nil {
 		w.PG.Close()
 	}
@@ -481,10 +570,25 @@ func (w *World) Step(tid int) StepResult {
 	w.Rec.SetRunning(tid)
 	w.Rec.Start(tid)
 	var err error
-	panicked, msg := lib.Catch(func() { err = t.T.Converge() })
+	var panicked bool
+	var msg string
+	w.stepNo++
+	done := make(chan struct{})
+	go func() {
+		defer close(done)
+		panicked, msg = lib.Catch(func() { err = t.T.Converge() })
+	}()
+	select {
+	case <-done:
+	case <-time.After(w.stepTimeout()):
+		w.hung(tid)
+		res.Outcome, res.Last = "OHung", len(w.Rec.Events)
+		return res
+	}
 	res.Calls = node.Calls()[c0:]
 	node.endStepSim()
 	res.Outcome = Classify(panicked, err)
+	defer func() { w.checkReturned(tid, res.Outcome, 0) }()
 	if err != nil {
 		res.Err = err.Error()
 	}
@@ -531,9 +635,7 @@ func (w *World) Restart(alreadyRecorded bool) error {
 	}
 	w.Rec.Mute(true)
 	defer w.Rec.Mute(false)
-	if w.Pool != nil {
-		w.Pool.Close()
-	}
+	w.closePool()
 	return w.connect(false)
 }
 
@@ -596,6 +698,7 @@ func (s *Sched) Advance(tid int) (ended bool, res StepResult) {
 	case !s.active[tid]:
 		s.active[tid] = true
 		t := w.Task(tid)
+		w.stepNo++
 		w.Nodes[t.Info.SrcName].beginStep(tid)
 		w.Rec.Start(tid)
 		go func() {
@@ -615,8 +718,16 @@ func (s *Sched) Advance(tid int) (ended bool, res StepResult) {
 	select {
 	case <-s.arrive:
 		return false, StepResult{}
+	case <-time.After(w.stepTimeout()):
+		delete(s.active, tid)
+		w.hung(tid)
+		s.mu.Lock()
+		s.running = 0
+		s.mu.Unlock()
+		return true, StepResult{Tid: tid, Outcome: "OHung"}
 	case r := <-s.finish:
 		delete(s.active, tid)
+		defer func() { w.checkReturned(tid, r.Outcome, len(s.active)) }()
 		if r.Outcome == "OPanicked" && w.pendingEmptyLoad(tid) {
 			w.Rec.EmptyLoad(tid)
 		}
